@@ -363,6 +363,132 @@ def job_factory(args):
     return rep
 
 
+# ------------------------------------------------------------------ several factories feeding wrappers (UseRun pipelines)
+PIPE_FACS = {
+    # key: (factory name or None = generated, default_args, factory-level default kwargs)
+    'hi':        (None, ['{greeting}'], {'greeting': 'hi'}),
+    'bye':       (None, ['{greeting}'], {'greeting': 'bye'}),
+    'named-hi':  ('fac', ['{greeting}'], {'greeting': 'hi'}),
+    'named-bye': ('fac', ['{greeting}'], {'greeting': 'bye'}),
+    'named-x':   ('fac', ['x', '{greeting}'], {'greeting': 'hi'}),      # the user gave two different factories one name
+    'other-exe': (None, ['-n', '{greeting}'], {'greeting': 'hi'}),
+}
+PIPE_REQS = [(fac, tuple(sorted(kw.items())), extra) for fac in PIPE_FACS for kw in ({}, {'greeting': 'yo'}) for extra in ((), ('a',))]
+
+
+def pipe_doc_name(req):
+    """What the documented naming scheme hashes: factory name (generated from path and default args when not given), extra
+    arguments and the format keywords actually used (factory defaults updated by the call)."""
+    fac, kws, extra = req
+    fname, dargs, defaults = PIPE_FACS[fac]
+    merged = dict(defaults)
+    merged.update(dict(kws))
+    return (fname if fname else ('generated', tuple(dargs)), tuple(extra), tuple(sorted(merged.items())))
+
+
+def pipe_expected(req):
+    fac, kws, extra = req
+    _, dargs, defaults = PIPE_FACS[fac]
+    merged = dict(defaults)
+    merged.update(dict(kws))
+    words = [a.format(**merged) for a in dargs] + list(extra)
+    newline = not (words and words[0] == '-n')
+    return ' '.join(w for w in words if w != '-n') + ('\n' if newline else '')
+
+
+def slurp(result):
+    with open(result, encoding='utf-8') as fil:
+        return fil.read()
+
+
+def job_pipes(args):
+    """Histories of pipeline requests UseRun.from_factory(F).map(slurp)(**kw) applied to a final function: every pipeline, executed,
+    must read the output of ITS command line."""
+    (first,) = args
+    from valjean.cosette.run import RunTaskFactory
+    from valjean.cosette.use import Use, UseRun
+    from valjean.cosette.task import close_dependency_graph
+    from valjean.cosette.env import Env
+    from valjean.cambronne.common import check_unique_task_names
+    from valjean.config import Config
+    rep = Report()
+    scratch = tempfile.mkdtemp(prefix='vf_c15p_')
+
+    def final(text):
+        return ('final', text)
+
+    def execute(task):
+        root = tempfile.mkdtemp(dir=scratch)
+        conf = Config()
+        conf.set('path', 'output-root', root)
+        env = Env()
+        order = []
+
+        def visit(tsk):
+            if tsk not in order:
+                for dep in sorted(tsk.depends_on | tsk.soft_depends_on, key=lambda t: t.name):
+                    visit(dep)
+                order.append(tsk)
+        visit(task)
+        for tsk in order:
+            upd, status = tsk.do(env, conf)
+            env.apply(upd)
+            env.set_status(tsk, status)
+        res = env[task.name]['result']
+        shutil.rmtree(root, ignore_errors=True)
+        return res
+
+    try:
+        for second in PIPE_REQS:
+            hist = (first, second)
+            Use._CACHE.clear()  # pylint: disable=protected-access
+            facs = {}
+            made = []
+            err = None
+            for req in hist:
+                fkey, kws, extra = req
+                if fkey not in facs:
+                    fname, dargs, defaults = PIPE_FACS[fkey]
+                    facs[fkey] = RunTaskFactory.from_executable('/bin/echo', name=fname, default_args=list(dargs), **defaults)
+                try:
+                    deco = UseRun.from_factory(facs[fkey]).map(slurp)(extra_args=list(extra), **dict(kws))
+                    made.append(deco(final).get_task())
+                except Exception as exc:  # pylint: disable=broad-except
+                    err = exc
+                    break
+            case = {'pipelines': [list(map(repr, h)) for h in hist]}
+            same = first == second
+            rep.case(nontrivial=repr(hist) if not same else None, outcome=('pipes', 'error' if err else (made[0] is made[1])))
+            if err is not None:
+                rep.counters['explicit_error_at_second_pipeline'] += 1
+                continue
+            try:
+                check_unique_task_names(close_dependency_graph(made))
+            except ValueError:
+                rep.counters['explicit_duplicate_name_error_at_collection'] += 1
+                continue
+            cause = 'name-scheme' if pipe_doc_name(first) == pipe_doc_name(second) else 'other'
+            differs = '+'.join(n for n, a, b in (('factory', first[0], second[0]), ('kwargs', first[1], second[1]),
+                                                 ('extra_args', first[2], second[2])) if a != b) or 'nothing'
+            for req, task in zip(hist, made):
+                try:
+                    got = execute(task)
+                except Exception as exc:  # pylint: disable=broad-except
+                    rep.violate(f'C15|factory|pipeline-raises|{type(exc).__name__}|cause={cause}|differs={differs}',
+                                f'executing the pipeline of {req!r} raised {exc!r}', case)
+                    continue
+                exp = ('final', pipe_expected(req))
+                if got != exp:
+                    rep.violate(f'C15|factory|pipeline-wrong-command|cause={cause}|differs={differs}',
+                                f'pipeline {req!r} after {first!r}: computed {got!r}, its own command line gives {exp!r}', case)
+            if same and made[0] is not made[1]:
+                rep.violate('C15|factory|pipeline-identical-request-new-task', f'{first!r} requested twice gives two tasks', case)
+    finally:
+        shutil.rmtree(scratch, ignore_errors=True)
+    rep.sample({'pipelines': [repr(first), repr(PIPE_REQS[5])]})
+    return rep
+
+
 # ------------------------------------------------------------------ statistics helpers and collect
 def job_misc(_arg):
     from valjean.cosette.use import Use
@@ -437,6 +563,7 @@ def run(tier, seed):
     jobs = [(job_use, (depth, first)) for first in USE_REQS]
     jobs += [(job_factory, (depth, first)) for first in FAC_REQS]
     jobs.append((job_misc, None))
+    jobs += [(job_pipes, (first,)) for first in PIPE_REQS]
     rep = pool.pmap(_call, jobs, seed)
     rep.extra['history_length'] = depth + 1
     return rep
